@@ -57,6 +57,8 @@ def enumerate_cases(tier, scope):
         {'rets': {'a': [{'__tc__': {}}]}, 'preds': {'p': [False], 'q': [True, True], 'r': [True]}},
         {'rets': {'a': [7], 'b': [None, 8]}, 'tocontext': {'a': [{'ka': ['done', 1]}], 'b': [{'kb': ['done', 2]}, {'kb2': ['done', 3]}]}, 'preds': {'p': [True, False], 'q': [True], 'r': [True]}},
         {'rets': {}, 'tocontext': {'a': [{'ka': ['done', 1]}, {'ka': ['done', 2]}], 'b': [{'kb': ['done', 2]}]}, 'preds': {'p': [True, True, False], 'q': [True, False], 'r': [True]}},
+        {'rets': {}, 'preds': {'p': [True, False], 'q': [False, True], 'r': [False]}, 'pred_as': {'p': 'list', 'q': 'str', 'r': 'tuple'}},
+        {'rets': {}, 'preds': {'p': [True, True, False], 'q': [False], 'r': [True]}, 'pred_as': {'p': 'int', 'q': 'none', 'r': 'list'}},
     ]
     if scope == 'medium':
         instrs = instrs[:: max(1, len(instrs) // 1500)]
@@ -106,6 +108,8 @@ def _cases(draw, tier):
             seq = [True] + seq  # bias: loops and branches get entered
         preds[name] = seq
     behaviour = {'rets': rets, 'preds': preds}
+    if draw(st.integers(0, 2)) == 0:
+        behaviour['pred_as'] = {name: draw(st.sampled_from(['list', 'str', 'tuple', 'int', 'none'])) for name in draw(st.lists(st.sampled_from(PRED_NAMES), min_size=1, max_size=3, unique=True))}
     if draw(st.integers(0, 2)) == 0:
         # steps that also register (already completed) awaitables through to_context(): the denoted program is the same,
         # in particular a value returned by such a step still is the result
